@@ -737,6 +737,10 @@ def check_bcp(ctx: Ctx, oid: str):
     blocks = [i for i, st_ in enumerate(p.node.body) if isinstance(st_, ast.If) and "trail_lim" in names_in(st_.test) and "assumptions" in {x.id for x in ast.walk(st_) if isinstance(x, ast.Name)}]
     queue = [i for i, st_ in enumerate(p.node.body) if isinstance(st_, ast.While) and "prop_head" in names_in(st_.test)]
     ctx.ob(oid, "R16 PAIRED-EFFECTS", p, "at level 0 the assumptions are asserted before the queue is processed (so that they are propagated by this very call)", len(blocks) == 1 and len(queue) == 1 and blocks[0] < queue[0], "assumption literals asserted after the queue loop stay unpropagated: when they leave no free variable the assignment is published without any clause having been checked against it", node=p.node.body[blocks[0]] if blocks else p.node)
+    if blocks:
+        t0 = p.node.body[blocks[0]].test
+        lvl0 = ast.unparse(t0).replace(" ", "") in ("len(trail_lim)==0", "0==len(trail_lim)", "nottrail_lim", "len(trail_lim)<1")
+        ctx.ob(oid, "R1 STATUS-GUARD", p, "the assumptions are (re)asserted in every call made at level 0, whatever is pending on the trail", lvl0, f"`if {ast.unparse(t0)}`: the search relies on the first call - with an empty trail and nothing pending - to put the assumptions on the trail; under a further condition they are never asserted, and a model that contradicts an assumption is published (or a model at all, where formula plus assumptions have none)", node=p.node.body[blocks[0]])
     rets = [ast.unparse(r.value) for r in own_nodes(p.node) if isinstance(r, ast.Return)]
     cfg = cfg_of(p.node)
     last = p.node.body[-1]
@@ -750,6 +754,23 @@ def check_bcp(ctx: Ctx, oid: str):
     ):
         if ctx.repo.has_func("sat", q):
             _need(ctx, oid, "R18 table", ctx.func("sat", q), what, frags)
+
+
+def check_variable_ranges(ctx: Ctx, oid: str):
+    """Every loop or comprehension of solve_sat that ranges over the variables covers 1..n_vars: the decision heap and
+    its membership flags, the pure-literal scan, the watch purge of reduce_db, the model read-out and the blocking
+    clause.  A variable left out of the heap is never decided; left out of the read-out it has no value in the model."""
+    f = ctx.func("sat", "solve_sat")
+    sites = []
+    for n in ast.walk(f.node):
+        it = n.iter if isinstance(n, (ast.For, ast.comprehension)) else None
+        if isinstance(it, ast.Call) and isinstance(it.func, ast.Name) and it.func.id == "range" and len(it.args) == 2 and ast.unparse(it.args[0]) == "1" and "n_vars" in names_in(it.args[1]):
+            sites.append((n, it))
+    ctx.floor("loops over the variables 1..n_vars in solve_sat", len(sites), 5)
+    bad = [(n, it) for n, it in sites if ast.unparse(it.args[1]).replace(" ", "") not in ("n_vars+1", "1+n_vars")]
+    ctx.ob(oid, "R12 NO-CARDINALITY-CUTOFF", f, "every pass over the variables covers 1..n_vars (`range(1, n_vars + 1)`)", not bad, f"`{ast.unparse(bad[0][1])}` at line {bad[0][1].lineno}: the highest-numbered variable is left out - out of the decision heap it is never decided (its flag says it is queued), and a model is published in which a clause over it is not true" if bad else "", node=bad[0][1] if bad else f.node)
+    flags = [n for n in own_nodes(f.node) if isinstance(n, ast.Assign) and ast.unparse(n.targets[0]) == "in_heap"]
+    ctx.ob(oid, "R16 PAIRED-EFFECTS", f, "the membership flags start true for exactly the variables the heap starts with (all of them)", len(flags) == 1 and ast.unparse(flags[0].value).replace(" ", "") in ("[True]*(n_vars+1)", "[True]*(1+n_vars)"), ast.unparse(flags[0].value) if flags else "not found", node=flags[0] if flags else f.node)
 
 
 def check_analysis(ctx: Ctx, oid: str):
